@@ -46,7 +46,7 @@ pub struct ChaosCase {
     pub rotated: bool,
 }
 
-struct FaultyStore {
+pub struct FaultyStore {
     inner: InMemorySessionStore,
     calls: AtomicU64,
     fail: BTreeSet<u64>,
@@ -62,8 +62,25 @@ impl std::fmt::Debug for FaultyStore {
 }
 
 impl FaultyStore {
+    /// A wrapper around the in-memory store that fails the store calls whose number is in `fail` and wipes
+    /// every record before the calls whose number is in `wipe`.
+    pub fn new(fail: &[u8], wipe: &[u8]) -> FaultyStore {
+        FaultyStore {
+            inner: InMemorySessionStore::new(),
+            calls: AtomicU64::new(0),
+            fail: fail.iter().map(|x| *x as u64).collect(),
+            wipe: wipe.iter().map(|x| *x as u64).collect(),
+            ids: Mutex::new(vec![]),
+            stats: Mutex::new((0, 0)),
+        }
+    }
+
     /// Returns `true` when this call has to fail.
     async fn tick(&self, id: Option<&SessionId>) -> bool {
+        if FAULTS_PAUSED.with(|p| p.get()) {
+            // the harness itself is looking at the store
+            return false;
+        }
         let n = self.calls.fetch_add(1, Ordering::SeqCst);
         if let Some(id) = id {
             let mut ids = self.ids.lock().unwrap();
@@ -148,6 +165,11 @@ impl SessionStorageBackend for FaultyStore {
 }
 
 thread_local! {
+    /// set by a harness around its own inspections of the store (they are not part of the history)
+    pub static FAULTS_PAUSED: std::cell::Cell<bool> = const { std::cell::Cell::new(false) };
+}
+
+thread_local! {
     static RT: tokio::runtime::Runtime = tokio::runtime::Builder::new_current_thread().enable_all().build().unwrap();
 }
 
@@ -169,6 +191,12 @@ async fn run(c: &ChaosCase) -> CaseResult {
         stats: Mutex::new((0, 0)),
     };
     let store = SessionStore::new(faulty);
+    // (a TTL beyond any clock is for the first campaign only: the stores cannot create such a record)
+    let mut base = c.base.clone();
+    if base.ttl % 4 == 3 {
+        base.ttl = 2;
+    }
+    let c = &ChaosCase { base, ..c.clone() };
     let (config, processor, name) = crate::c12::session_setup(&c.base);
     let old_processor = crate::c12::old_processor(&c.base);
     let mut info = CaseInfo::default();
